@@ -102,7 +102,28 @@ def edge_ticks() -> list[int]:
         out.add(T64 - 1 - d)
         out.add(7 * T64 - 1 - d)
         out.add(-3 * T64 + T64 - 1 - d)
+    for w in (0, 5, -5, 86399, -86400):
+        for f in structured_fractions():
+            out.add(w * T64 + f)
     return sorted(out)
+
+
+def structured_fractions() -> list[int]:
+    """Fractional tick values (0 <= f < 2^64) whose decimal sub-fields vanish selectively: dyadic fractions k/2^n (yoctosecond
+    0 with femtosecond != 0 for 7 <= n <= 15), exact microsecond / femtosecond multiples, sub-femtosecond values."""
+    out = set()
+    for n in range(1, 25):
+        for k in (1, 3, (1 << n) - 1, (1 << n) // 2 + 1):
+            if 0 < k < (1 << n):
+                out.add(k << (64 - n))
+    for k in (1, 7, 999_999, 500_000, 7812, 123_456):
+        b = -((-k * T64) // 10**6)
+        out.update((b - 1, b, b + 1))
+    for k in (1, 999, 10**9 - 1, 10**9, 10**9 + 1, 123_456_789_012_345):
+        b = -((-k * T64) // 10**15)
+        out.update((b - 1, b, b + 1))
+    out.update((1, 2, 18446, 18447, 18_446_744, 18_446_745))
+    return sorted(f for f in out if 0 <= f < T64)
 
 
 def rand_ticks(rng, in_range_only: bool = False) -> int:
